@@ -53,21 +53,21 @@ var panicPackages = []string{
 
 // site kinds (Lean constructor names of Gen.PanicKind)
 const (
-	kPanic       = "explicitPanic" // panic(...) call
-	kAssert      = "typeAssert"    // x.(T), single-value form
-	kIndex       = "index"         // x[i], i not constant, x slice/array/string/unresolved
-	kIndexConst  = "indexConst"    // x[c], c constant, x not a fixed-size array (length unknown)
-	kSlice       = "slice"         // x[a:b], a bound non-constant, or constant on a non-array
-	kDivide      = "divide"        // a / b, a % b with non-constant b
-	kNilDeref    = "nilDeref"      // field access through a pointer of a nil-tolerant struct type
-	kNilCall     = "nilCall"       // call of a func value obtained from a map lookup
-	kAeadNonce   = "aeadNonce"     // cipher.AEAD Open/Seal (nonce length precondition)
-	kFillBytes   = "fillBytes"     // big.Int.FillBytes (buffer size precondition)
-	kReflect     = "reflectCall"   // reflect.Value/Type method with a kind/settability precondition
-	kAlgNew      = "algNew"        // X.New() on an algorithm identifier / crypto.Hash
-	kMakeSize    = "makeSize"      // make with a size not built from len()/constants
-	kKeyLen      = "keyLen"        // ed25519/ed448/x448/x25519 functions with length preconditions
-	kBigNil      = "bigNil"        // method on a *big.Int operand that may be nil
+	kPanic      = "explicitPanic" // panic(...) call
+	kAssert     = "typeAssert"    // x.(T), single-value form
+	kIndex      = "index"         // x[i], i not constant, x slice/array/string/unresolved
+	kIndexConst = "indexConst"    // x[c], c constant, x not a fixed-size array (length unknown)
+	kSlice      = "slice"         // x[a:b], a bound non-constant, or constant on a non-array
+	kDivide     = "divide"        // a / b, a % b with non-constant b
+	kNilDeref   = "nilDeref"      // field access through a pointer of a nil-tolerant struct type
+	kNilCall    = "nilCall"       // call of a func value obtained from a map lookup
+	kAeadNonce  = "aeadNonce"     // cipher.AEAD Open/Seal (nonce length precondition)
+	kFillBytes  = "fillBytes"     // big.Int.FillBytes (buffer size precondition)
+	kReflect    = "reflectCall"   // reflect.Value/Type method with a kind/settability precondition
+	kAlgNew     = "algNew"        // X.New() on an algorithm identifier / crypto.Hash
+	kMakeSize   = "makeSize"      // make with a size not built from len()/constants
+	kKeyLen     = "keyLen"        // ed25519/ed448/x448/x25519 functions with length preconditions
+	kBigNil     = "bigNil"        // method on a *big.Int operand that may be nil
 )
 
 var kindOrder = []string{kPanic, kAssert, kIndex, kIndexConst, kSlice, kDivide, kNilDeref, kNilCall,
@@ -273,16 +273,16 @@ type ifInfo struct {
 }
 
 type fnCtx struct {
-	pf      *pkgFacts
-	file    string
-	imps    map[string]bool
-	fn      string
-	env     map[string]ast.Expr // local name -> type expr
-	nonNil  map[string]bool     // locals certainly non-nil (x := &T{}, new(T))
-	mapVal  map[string]bool     // locals assigned from a single-value map lookup
-	ifs     []*ifInfo
-	sites   *[]panicSite
-	counter map[string]int
+	pf        *pkgFacts
+	file      string
+	imps      map[string]bool
+	fn        string
+	env       map[string]ast.Expr // local name -> type expr
+	nonNil    map[string]bool     // locals certainly non-nil (x := &T{}, new(T))
+	mapVal    map[string]bool     // locals assigned from a single-value map lookup
+	ifs       []*ifInfo
+	sites     *[]panicSite
+	counter   map[string]int
 	okAsserts map[*ast.TypeAssertExpr]bool
 	okIndex   map[*ast.IndexExpr]bool
 	loopSafe  map[string]bool // "i|X" pairs: i ranges over X / i < len(X)
